@@ -20,6 +20,10 @@ THEOREMS = [
     ("C16_versions_injective",
      "forall v1 v2 n1 n2, is_bytes n1 -> is_bytes n2 -> "
      "role_filename true v1 n1 = role_filename true v2 n2 -> n1 = n2 /\\ v1 = v2"),
+    ("C16_file_url_opens_entry",
+     "forall base cs v name, forallb (fun c => negb (is_empty c)) base = true -> is_bytes name -> "
+     "url_plain (role_filename cs v name) = true "
+     "/\\ url_join base (role_filename cs v name) = UPath (base ++ [role_filename cs v name]) false"),
 ]
 
 ALPHABET = ["/", "\\", ".", "%", "?", "#", ":", " ", "\x01", "é", "a", "2", "F", "j"]
@@ -57,8 +61,9 @@ def run(chk):
                 "special spellings; distinct by (cs, version, name); plus, for 20 odd role names (thorough: 170) in both "
                 "settings, the other sites: requests and datastore files of load_delegations, files requested and "
                 "written by cache_metadata, inside a sentinel directory")
-    chk.assumptions = ["Url::join / FilesystemTransport treat a percent-encoded single segment as itself "
-                       "(exercised end-to-end by the C05/C10/C19 checks, not proved)"]
+    chk.assumptions = ["Url::join and Url::path() as re-stated in Model/Url.v (url_join; compared with the url crate on "
+                       "every file name of this run); that a percent-encoded single segment is opened as itself is now "
+                       "the theorem C16_file_url_opens_entry"]
     chk.proof, fails = C.proof_gate("C16")
     for f in fails:
         chk.broken(f, {"theorem_gate": f})
@@ -89,6 +94,20 @@ def run(chk):
         by_file.setdefault(key, name)
         if mr != ir:
             chk.broken("correspondence: model role_filename differs from DelegatedTargets::filename", desc)
+    # the file a local client opens for each of these file names: the url crate (Url::join on a file:// base, Url::path)
+    # against Model/Url.v, and the conclusion of C16_file_url_opens_entry on the implementation's own answer
+    fnames = list(dict.fromkeys(bytes(ir) for ir in i if isinstance(ir, list) and all(isinstance(x, int) for x in ir)))
+    ucases = [[21, 0, [C.enc("repo"), C.enc("metadata")], list(fn)] for fn in fnames]
+    um, ui = C.run_model(ucases), C.run_impl(ucases)
+    for fn, c, mr, ir in zip(fnames, ucases, um, ui):
+        chk.count("file-url-compared")
+        desc = {"what": "Url::join of a role's file name on file:///repo/metadata/", "file": C.b2s(list(fn)), "model": mr, "impl": ir}
+        want = [0, [C.enc("repo"), C.enc("metadata"), list(fn)], 0]
+        if ir != want:
+            chk.violation("the file opened for the role file name %r is not that entry of the metadata directory: %s"
+                          % (C.b2s(list(fn)), ir), desc)
+        elif mr[0] != ir or not mr[1]:
+            chk.broken("correspondence: model url_join / url_plain differs from the url crate on a role file name", desc)
     sites(chk)
     return chk
 
